@@ -626,3 +626,23 @@ func H15_Reset() {
 	want := fresh.Done()
 	vrt.Assert("after Reset the output equals a new outputter's", vrt.BytesEq(got, want))
 }
+
+// H15_ResetPairs_T (thorough): both documents generated.
+func H15_ResetPairs_T() {
+	var c1, c2 []call
+	var e1, e2 []jtok
+	symStrings = false
+	genValueM("a", 1, false, &c1, &e1)
+	genValueM("b", 1, false, &c2, &e2)
+	symStrings = true
+	var used plenccodec.JSONOutput
+	play(&used, c1)
+	used.Done()
+	used.Reset()
+	play(&used, c2)
+	got := append([]byte{}, used.Done()...)
+	var fresh plenccodec.JSONOutput
+	play(&fresh, c2)
+	vrt.Assert("after Reset the output equals a new outputter's", vrt.BytesEq(got, fresh.Done()))
+	_ = e2
+}
